@@ -134,3 +134,13 @@ def run(ctx):
 
 def _cmp_names(g):
   return names_of(g.atom)
+
+
+# sensitivity pack (thorough tier)
+MUTANTS = [{'name': 'runic outputs allowed as commit input', 'file': 'src/wallet/batch/plan.rs', 'old': '            && !runic_utxos.contains(outpoint)\n', 'new': '', 'expect': ('R21.2', '', 'runic_utxos')},
+           {'name': 'locked test inverted', 'file': 'src/wallet/batch/plan.rs', 'old': '            && !locked_utxos.contains(outpoint)', 'new': '            && locked_utxos.contains(outpoint)', 'expect': ('R21.2', '', 'locked_utxos')},
+           {'name': 'same-outpoint check skipped when reinscribing', 'file': 'src/wallet/batch/plan.rs', 'old': '      if inscribed_satpoint.outpoint == satpoint.outpoint {', 'new': '      if !self.reinscribe && inscribed_satpoint.outpoint == satpoint.outpoint {', 'expect': ('R21.4', 'create_batch_transactions', 'same outpoint')}]
+
+
+# behaviour-preserving pack (thorough tier)
+NEUTRAL = [{'name': 'predicate terms reordered', 'file': 'src/wallet/batch/plan.rs', 'old': '            && !inscribed_utxos.contains(outpoint)\n            && !locked_utxos.contains(outpoint)\n', 'new': '            && !locked_utxos.contains(outpoint)\n            && !inscribed_utxos.contains(outpoint)\n'}]
